@@ -49,7 +49,7 @@ for i in range(1, 21):
     pid = "C%02d" % i
     try:
         e = json.load(open(os.path.join(V, "evidence", pid + ".json")))
-        n = len(e["coverage"].get("axioms_per_theorem", {}))
+        n = len(e["coverage"].get("theorems", []))
     except Exception:
         n = "?"
     fx = fixes.get(pid, [])
